@@ -178,7 +178,25 @@ def builtin(ex, st, fr, name, a, x, work):
     # ---------------- std::istream
     if name == '_ZNSi4readEPcl':
         S.add('std::istream::read -> memfile'); mf = mf_get(st, fid_of(st, a[0])); n = a[2]; buf = a[1]
-        if not isc(n): raise Violation('unsupported', 'symbolic read length', st)
+        if not isc(n):
+            # length taken from untrusted data: one path per length shorter than what is left in the file, one for 'at least the rest', one for negative
+            rem = max(0, len(mf['data']) - mf['g'])
+            if mf['state'] & (FAILBIT | BADBIT | EOFBIT): mf['gcount'] = 0; set_state(ex, st, mf, FAILBIT); return a[0]
+            cases = [(n == z3.BitVecVal(k, 64), k) for k in range(rem)] + [(z3.And(n >= z3.BitVecVal(rem, 64)), rem + 1), (n < 0, -1)]
+            feas = [(cnd, k) for cnd, k in cases if ex.sat(st, cnd) is not None]
+            if not feas: return 'infeasible'
+            def doread(state, k):
+                m2 = mf_get(state, fid_of(state, a[0]))
+                if k < 0: set_state(ex, state, m2, FAILBIT); m2['gcount'] = 0; return
+                avail = min(k, rem)
+                if avail:
+                    ex.check_access(state, buf, avail, 'istream::read destination')
+                    for i in range(avail): ex.store_val(state, Ptr(buf.obj, buf.off + i), I8, m2['data'][m2['g'] + i])
+                m2['g'] += avail; m2['gcount'] = avail
+                if k > rem: set_state(ex, state, m2, EOFBIT | FAILBIT)
+            for cnd, k in feas[:-1]:
+                ex.fork_ret(st, x, cnd, a[0], work, post=lambda o, kk=k: doread(o, kk))
+            cnd, k = feas[-1]; ex.assume(st, cnd); doread(st, k); return a[0]
         if n >= (1 << 63): n = 0
         if mf['state'] & (FAILBIT | BADBIT | EOFBIT): mf['gcount'] = 0; set_state(ex, st, mf, FAILBIT); return a[0]
         avail = max(0, min(n, len(mf['data']) - mf['g']))
@@ -341,6 +359,8 @@ def builtin(ex, st, fr, name, a, x, work):
             if not isc(b): raise Violation('unsupported', 'hash of symbolic bytes', st)
             h = ((h ^ b) * 0x100000001b3) & ((1 << 64) - 1)
         return h
+    if name.startswith('_ZN3Opm13OpmInputError') and ('formatSingle' in name or 'formatException' in name or 'format' in name) and x['ty'].k == 'void':
+        S.add('OpmInputError::format* -> empty message'); make_string(ex, st, a[0], []); return 0
     # ---------------- strtol / strtoll / strtoul: exact on the C string (symbolic bytes fork per shape: blanks, sign, digit count)
     if name in ('strtol', 'strtoll', 'strtoul', 'strtoull', '__isoc23_strtol', '__isoc23_strtoll', '__isoc23_strtoul'):
         S.add('strtol: exact decimal model, forks on the shape of symbolic bytes (blanks/sign/digit count)')
